@@ -514,3 +514,28 @@ func init() {
 		What:   "real HashUserPasswords(users, false) - what StoreServerConfig runs right before marshalling - on users with every mix of name / password / hashedPassword fields set or unset (incl. both): afterwards NO user carries a non-empty plaintext password, and a user that had one has a hashed password; keepPlaintext leaves the client's password in place",
 		Bounds: "2 users, strings <= 2 bytes", Outside: "SHA-256 uninterpreted; the marshalling and file write themselves (reflection / I/O)"})
 }
+
+func init() {
+	r := map[string]string{
+		"github.com/enfein/mieru/v3/pkg/metrics.RegisterMetric":  "vStubRegisterMetric",
+		"io.ReadFull": "vStubReadFullLen",
+		"(*github.com/enfein/mieru/v3/pkg/replay.ReplayCache).IsDuplicate": "vStubIsDuplicateFirst",
+		"(*github.com/enfein/mieru/v3/pkg/protocol.StreamUnderlay).serverInitRecvBlockCipherAndDecryptMetadata": "vStubServerInitOracle",
+	}
+	reg("C06", HarnessDef{ID: "H6.2a", Spec: HarnessSpec{Name: "vH_C06_stream_replay", Pkg: "pkg/protocol", LoopBound: 8, LoopBounds: map[string]int{"ReadAtLeast": 3}, TimeoutS: 120, Par: 4, Redirects: r},
+		What:   "real StreamUnderlay.readOneSegment, first read of a server connection that the replay cache reports as seen (a byte-exact copy of traffic already accepted): whether or not it still decrypts (user discovery succeeds or fails, metadata arbitrary), nothing is passed on, the error is a REPLAY error (the event loop then drains and closes without writing, H5.1), not a byte is written, no session exists, no send cipher is derived",
+		Bounds: "stream 72..200 bytes", Outside: "replay cache answer fixed to 'seen' for the first read (its own law is H6.1); discovery replaced by its outcome; io.ReadFull length-only"})
+}
+
+func init() {
+	reg("C11", HarnessDef{ID: "H11.1s-e", Spec: HarnessSpec{Name: "vH_C11_shaped_empty", Pkg: "pkg/socks5", LoopBound: 12, LoopBounds: map[string]int{"ReadAtLeast": 2}, TimeoutS: 240, Par: 4},
+		What:   "one configured (non-empty) credential, the client presents user and password of length 0..1: success => exactly the configured pair - an unknown or empty user with an empty password is never let in",
+		Bounds: "field lengths 0..1, all byte values", Outside: "-"})
+	reg("C12", HarnessDef{ID: "H12.3", Spec: HarnessSpec{Name: "vH_C12_serve_conn", Pkg: "pkg/socks5", LoopBound: 30, LoopBounds: map[string]int{"ReadAtLeast": 2}, TimeoutS: 240, Par: 6,
+		Redirects: map[string]string{
+			"(*github.com/enfein/mieru/v3/pkg/socks5.Server).handleRequest":    "vStubHandleRequest",
+			"(*github.com/enfein/mieru/v3/pkg/socks5.Server).handleForwarding": "vStubHandleForwarding",
+			"(*bytes.Buffer).Write": "vStubBufWrite", "(*bytes.Buffer).Bytes": "vStubBufBytes"}},
+		What:   "reader + decision + dispatch composed: the real Server.serverServeConn (readRequest -> FindAction -> handler / reject) on an ARBITRARY request byte string (IPv4 form; empty-domain form): the connect / associate handler is reached only for a destination that is not loopback / unspecified / private unless the user holds the permission, and only for SOCKS version 5 - no request the reader accepts can dodge the decision",
+		Bounds: "requests of 10 and 7 bytes, every user state, no egress rules", Outside: "handleRequest / handleForwarding replaced by recorders (they would dial); bytes.Buffer as an append-only slice"})
+}
